@@ -12,6 +12,8 @@ A kernel spec is a dict:
   c_header  C signature text for the generated function
   rules     ordered list of (regex, replacement, expected_count); the count is
             an int (exact), a (min,max) tuple, or None (any number, incl. 0)
+  inline_local_consts  True: local 'const int' definitions of the function that precede a
+            span are substituted into it
   init_list True for a constructor: its member-initialiser list is turned into
             assignments self->member = expr; in front of the body
   pre/post  optional literal C text put at the start/end of the generated body
@@ -292,8 +294,42 @@ def extract_kernel(repo, spec):
         s1 = mb.start() + me.end()
         line0 = src.count("\n", 0, bo + 1 + s0) + 1
         line1 = src.count("\n", 0, bo + 1 + s1) + 1
+        pre_text = body[:s0]
         body = body[s0:s1]
         region = body
+        if spec.get("inline_local_consts"):
+            # local 'const int NAME = EXPR[, NAME2 = EXPR2];' definitions of the function that precede the span are
+            # substituted into the span (nearest preceding definition wins; repeated, as definitions may use each other)
+            defs = {}
+            for dm in re.finditer(r"\bconst int\s+([^;]+);", pre_text):
+                depth, cur, parts = 0, "", []
+                for ch in dm.group(1):
+                    depth += ch in "([" 
+                    depth -= ch in ")]"
+                    if ch == "," and depth == 0:
+                        parts.append(cur)
+                        cur = ""
+                    else:
+                        cur += ch
+                parts.append(cur)
+                for d in parts:
+                    mm = re.match(r"^\s*([A-Za-z_]\w*)\s*=\s*(.+?)\s*$", d, flags=re.S)
+                    if mm:
+                        defs[mm.group(1)] = " ".join(mm.group(2).split())
+            used = []
+            for _ in range(6):
+                def sub(m):
+                    n = m.group(0)
+                    if n in defs and not re.search(r"(?:->|\.)\s*$", body[: m.start()][-3:]):
+                        used.append(n)
+                        return "(" + defs[n] + ")"
+                    return n
+                nb = re.sub(r"(?<![\w>.])[A-Za-z_]\w*\b(?!\s*\()", sub, body)
+                if nb == body:
+                    break
+                body = nb
+            if used:
+                log.append("rule inline_local_consts: %s" % ", ".join(sorted(set(used))))
     sha = hashlib.sha256(region.encode()).hexdigest()
     body = resolve_conditionals(body, repo, log)
     body = apply_rules(body, spec.get("rules", []), log, spec["name"])
